@@ -16,6 +16,7 @@ EXPLANATION = (
     "MTIA launch} (+ {cudaMemsetAsync, cudaMemcpyAsync} iff include_memory_events), ids looked up in the symbol map with None for missing names and not "
     "filtered by truthiness (0 is a valid id); host side = stream == -1, device side = stream != -1, both restricted to that set; inner join on "
     "correlation; launch_delay = max(ts_device - ts_host - dur_host, 0); cpu_duration / gpu_duration = the host / device durations; facade binding."
+    " Later additions: name extraction through the shared launch query; effect rules; stateless wrapper."
 )
 CK = "hta.analyzers.cuda_kernel_analysis"
 LAUNCH = {"cudaLaunchKernel", "cudaLaunchKernelExC", "runFunction - job_prep_and_submit_for_execution"}
